@@ -232,12 +232,24 @@ fn main() {
             let k = (splitmix(&mut s) % 8) as u32;
             let imm = (splitmix(&mut s) % 128) as u32; // in-range lane indices only: a refusal would end the program
             let (dst, ia, ib) = ((splitmix(&mut s) % 4) as usize, (splitmix(&mut s) % 4) as usize, (splitmix(&mut s) % 4) as usize);
-            #[cfg(all(target_arch = "x86_64", not(miri)))]
+            #[cfg(all(target_arch = "x86_64", any(not(miri), cryptocorrosion_verif_x86_miri)))]
             unsafe {
                 use ppv_lite86::Machine;
-                vecops_core::exec(ppv_lite86::x86_64::SSE2::instance(), ty, group, k, imm, &mut regs, dst, ia, ib);
+                use ppv_lite86::x86_64::{AVX, AVX2, SSE2, SSE41, SSSE3};
+                // the newest Machine this (simulated) CPU has - natively, without target features, that is SSE2
+                if cfg!(target_feature = "avx2") {
+                    vecops_core::exec(AVX2::instance(), ty, group, k, imm, &mut regs, dst, ia, ib);
+                } else if cfg!(target_feature = "avx") {
+                    vecops_core::exec(AVX::instance(), ty, group, k, imm, &mut regs, dst, ia, ib);
+                } else if cfg!(target_feature = "sse4.1") {
+                    vecops_core::exec(SSE41::instance(), ty, group, k, imm, &mut regs, dst, ia, ib);
+                } else if cfg!(target_feature = "ssse3") {
+                    vecops_core::exec(SSSE3::instance(), ty, group, k, imm, &mut regs, dst, ia, ib);
+                } else {
+                    vecops_core::exec(SSE2::instance(), ty, group, k, imm, &mut regs, dst, ia, ib);
+                }
             }
-            #[cfg(not(all(target_arch = "x86_64", not(miri))))]
+            #[cfg(not(all(target_arch = "x86_64", any(not(miri), cryptocorrosion_verif_x86_miri))))]
             unsafe {
                 use ppv_lite86::Machine;
                 vecops_core::exec(ppv_lite86::generic::GenericMachine::instance(), ty, group, k, imm, &mut regs, dst, ia, ib);
@@ -260,12 +272,24 @@ fn main() {
             let k = (splitmix(&mut s) % 8) as u32;
             let imm = (splitmix(&mut s) % 128) as u32;
             let (dst, ia, ib) = ((splitmix(&mut s) % 4) as usize, (splitmix(&mut s) % 4) as usize, (splitmix(&mut s) % 4) as usize);
-            #[cfg(all(target_arch = "x86_64", not(miri)))]
+            #[cfg(all(target_arch = "x86_64", any(not(miri), cryptocorrosion_verif_x86_miri)))]
             unsafe {
                 use ppv_lite86::Machine;
-                vecops_core::exec_bytes(ppv_lite86::x86_64::SSE2::instance(), ty, group, k, imm, &mut regs, dst, ia, ib);
+                use ppv_lite86::x86_64::{AVX, AVX2, SSE2, SSE41, SSSE3};
+                // the newest Machine this (simulated) CPU has - natively, without target features, that is SSE2
+                if cfg!(target_feature = "avx2") {
+                    vecops_core::exec_bytes(AVX2::instance(), ty, group, k, imm, &mut regs, dst, ia, ib);
+                } else if cfg!(target_feature = "avx") {
+                    vecops_core::exec_bytes(AVX::instance(), ty, group, k, imm, &mut regs, dst, ia, ib);
+                } else if cfg!(target_feature = "sse4.1") {
+                    vecops_core::exec_bytes(SSE41::instance(), ty, group, k, imm, &mut regs, dst, ia, ib);
+                } else if cfg!(target_feature = "ssse3") {
+                    vecops_core::exec_bytes(SSSE3::instance(), ty, group, k, imm, &mut regs, dst, ia, ib);
+                } else {
+                    vecops_core::exec_bytes(SSE2::instance(), ty, group, k, imm, &mut regs, dst, ia, ib);
+                }
             }
-            #[cfg(not(all(target_arch = "x86_64", not(miri))))]
+            #[cfg(not(all(target_arch = "x86_64", any(not(miri), cryptocorrosion_verif_x86_miri))))]
             unsafe {
                 use ppv_lite86::Machine;
                 vecops_core::exec_bytes(ppv_lite86::generic::GenericMachine::instance(), ty, group, k, imm, &mut regs, dst, ia, ib);
